@@ -20,6 +20,9 @@ CLAIMS = {
  "C20": ("exploration", "stability/injectivity oracle on hooked mapping + Go race detector on concurrent mapper/composefs workloads + exhaustive mode round trip",
          "localfs (dev, ino) mapping evaluated through a verif hook on ~2*10^4 pairs of every class, repeated sequentially and from 8 goroutines (stability and injectivity by hash map); real files of every creatable type for QID type vs mode; qids.Mapper and composefs/staticfs served to 16 concurrent clients on 4 connections under the race detector (both tiers); FileMode<->os.FileMode round trip exhaustive over 7 types x 4096 permission values.",
          "Race detector reports with a frame under /repo count as violations; the hook calls the real localToQid with a synthetic FileInfo.", "DESIGN.md section 3 C20"),
+ "C17": ("exploration", "differential delivery: same byte stream under chosen segmentations on a cut-imposing io.Reader and on a paced AF_UNIX socket pair, compared with the unsegmented run",
+         "Streams of 1-6 independent frames are delivered to a real server under every single cut and every pair of cuts (streams <= 120 bytes), one byte at a time, cuts at header bytes 1-7 / fixed-payload boundary and PRNG cut sets for long streams, and truncated at every offset with EOF (separately and with the last bytes); on the generic path and on a socket pair (recvmsg path, each segment consumed before the next is written). Replies by tag, backend-observed payload bytes and the backend call multiset must equal the unsegmented run. The same for a real client receiving segmented Rread/Rreaddir/Rgetattr/Rwalk/Rreadlink replies.",
+         "The unsegmented delivery is the reference; socket segment boundaries rely on TIOCINQ polling of the receiver's queue.", "DESIGN.md section 3 C17"),
 }
 
 PENDING = "check under construction in this round (DESIGN.md section 3); will be claimed once its monitor is committed and silent on the repaired tree"
